@@ -8,6 +8,9 @@ import GunYu.Props.C11
 namespace GunYu.BisyncUnit
 open GunYu GunYu.Slot
 
+/-- every slot is in range -/
+theorem hashSlotSpec_lt (k : Bytes) : hashSlotSpec k < 16384 := Nat.mod_lt _ (by decide)
+
 /-! ### hash tag of a wrapped key -/
 
 theorem splitFirst_append (c : UInt8) (pre rest : Bytes) (h : c ∉ pre) :
